@@ -14,7 +14,10 @@ def main():
             importlib.import_module(f"contracts.{m.stem}")
     cdef = [c for c in pc.PROPS[pid] if c.name == name][0]
     status, failures, ctx = pc.run_concrete(cdef, assign)
-    print(status, failures)
+    if os.environ.get("PYVC_CASE_JSON"):
+        print("PYVC_CASE_RESULT " + json.dumps({"status": status, "failures": [str(f) for f in failures]}))
+    else:
+        print(status, failures)
     return 0 if status in ("ok", "skip") else 1
 
 if __name__ == "__main__":
